@@ -3,13 +3,20 @@
    (Spec/SeqSpec.v: rspec_step / ispec_step). After every step the implementation's output, length, full content
    (words or items), count of set bits, serialized elements and equality with a freshly built vector of the
    same content are compared. *)
-From Coq Require Import NArith List Bool.
+From Coq Require Import NArith ZArith List Bool.
 Require Import SDS.Model.Mach SDS.Model.Bits SDS.Model.Raw SDS.Model.IntVec SDS.Model.Hist.
 Require Import SDS.Spec.BitSeq SDS.Check.Common.
 (* exported: the generated case files name the operation constructors *)
 Require Export SDS.Spec.SeqSpec.
 Import ListNotations.
 Open Scope N_scope.
+
+(* Large numbers of the generated case files are written [W hi lo] (two 32-bit halves as primitive integers):
+   a 64-bit literal of type N costs Coq milliseconds to elaborate, a primitive one nothing. Only the transport of
+   literals uses primitive integers; every comparison is done on N. *)
+Require Coq.Numbers.Cyclic.Int63.Uint63.
+Definition W (hi lo : PrimInt63.int) : N :=
+  Z.to_N (Uint63.to_Z hi) * 4294967296 + Z.to_N (Uint63.to_Z lo).
 
 (* what was observed after one operation on a RawVector *)
 Inductive robs :=
@@ -186,3 +193,6 @@ Definition explain (c : case) : option N * option N :=
                     if iv_spec_ok st [s] then Some (if iop_preb st o then fst (ispec_step st o) else st) else None) (w, []) steps 0)
   | CNew _ _ => (None, None)
   end.
+
+(* the generated case files write their large literals with the primitive-integer number notation *)
+Require Export Coq.Numbers.Cyclic.Int63.Uint63.
